@@ -202,6 +202,9 @@ pub struct Config {
     /// type has no drop glue (collections and joins only)
     #[serde(default)]
     pub shape: u8,
+    /// collect()/extend() are fed from an iterator whose size_hint lower bound is inexact (0)
+    #[serde(default)]
+    pub inexact_iter: bool,
     /// name of the workload that generated this run (evidence only)
     pub workload: String,
 }
